@@ -443,6 +443,8 @@ pub fn replay(args: &[String]) -> i32 {
     let repo = arg_value(args, "--repo").unwrap_or("/repo".into());
     let docs_model = arg_num(args, "--docs-model", 2);
     let jobs = arg_num(args, "--jobs", 12) as usize;
+    // the driver hands over the schedules in batches (one process each): numbers go on from the batches before
+    let offset = arg_num(args, "--offset", 0) as usize;
     let nq = arg_num(args, "--queries", 150) as usize;
     let _ = std::fs::remove_dir_all(&work);
     std::fs::create_dir_all(&work).unwrap();
@@ -563,8 +565,8 @@ pub fn replay(args: &[String]) -> i32 {
             if i >= vectors.len() {
                 break;
             }
-            let r = run_vector(&ctx, i, &vectors[i], docs_model);
-            results.lock().unwrap().push((i, r));
+            let r = run_vector(&ctx, offset + i, &vectors[i], docs_model);
+            results.lock().unwrap().push((offset + i, r));
         }));
     }
     for h in handles {
